@@ -922,3 +922,10 @@ B("QoS 1 PUBLISH also entered into the receive window", ["C06"],
   [(PS, "            self.transport.write(reply.encode())\n            self._deliver(response)\n        elif response.qos == 2:", "            self.transport.write(reply.encode())\n            self.factory.windowPubRx[self.addr][response.msgId] = response\n            self._deliver(response)\n        elif response.qos == 2:")], {"C06": ["P1", "P5", "P6"]})
 B("PUBACK carries the next identifier, not the received one", ["C06"],
   [(PS, "            reply = PUBACK()\n            reply.msgId = response.msgId", "            reply = PUBACK()\n            reply.msgId = (response.msgId + 1) % 65536")], {"C06": ["P3"]})
+B("framer looks at the carry before the chunk is appended", ["C03"],
+  [(BASE, "        self._buffer.extend(data)\n\n        length = None\n\n        while len(self._buffer):", "        length = None\n\n        while len(self._buffer):"),
+   (BASE, "            else:\n                break\n", "            else:\n                break\n        self._buffer.extend(data)\n")], {"C03": ["F1", "F5", "F2", "F4", "F6"]})
+B("framer frames one packet per chunk (if, not while)", ["C03"],
+  [(BASE, "        while len(self._buffer):\n            if length is None:", "        for _once in (1,):\n            if length is None:")], {"C03": ["F5", "F1", "F2", "F6"]})
+B("framer hands the dispatcher the packet without its first byte", ["C03"],
+  [(BASE, "                chunk = self._buffer[:length + lenLen + 1]\n                self._processPacket(chunk)", "                chunk = self._buffer[:length + lenLen + 1]\n                self._processPacket(chunk[1:])")], {"C03": ["F2", "F7"]})
